@@ -1338,10 +1338,14 @@ def shortcut_pattern(ctx, f=""):
             y = x.upper() + r.choice(["", "b", "$"])          # the same letter in the other case
         if "m" in f and r.random() < 0.3:
             x, y = r.choice(["\\n", "[^,]", "\\s"]), r.choice(["$\\nb", "$", "^a", "\\n"])
+        anch = r.random() < 0.12
+        if anch:
+            # the repeat directly followed by an anchor that only holds where the repeat took nothing (^) / everything ($)
+            y = r.choice(["^", "^", "$"]) + (x if len(x) == 1 and x != "." else "a") + r.choice(["", "b"])
         tail = r.choice(["", p])
         if not tail:
             fe = set()
-        p = r.choice(["", "x"]) + x + q + y + tail
+        p = ("" if anch else r.choice(["", "x"])) + x + q + y + tail
     elif k < 0.8:
         p = p + a() * r.randint(3, 6)                         # long minimum length
     if k >= 0.45 and k < 0.7 and len(x) == 1:
